@@ -118,7 +118,29 @@ def run(model, R):
     from . import c06
     fi = model.func('lattices.Data._init')
     c06.class_patches(R, fi, fi.params[0], rule='MINIMIZE')
+    # no other subclass replaces the enumeration: attributes() of the bottom concept lists *all* generating subsets (when some object
+    # has every property the bottom has a non-empty extent and proper subsets of the full intent generate it too)
+    from .common import subclass_overrides, concept_cls
+    for sub_, oname, target in subclass_overrides(model, concept_cls(model), ['attributes', 'minimal']):
+        if (sub_.name, oname) == ('Infimum', 'minimal'):
+            continue
+        slot = f'{sub_.name}.{oname} (override)'
+        if not hasattr(target, 'node'):
+            R.unknown('MINIMIZE', f'{sub_.key}.{oname}', sub_.node, slot, 'rebinding that is not a method definition')
+            continue
+        ys_ = [n for n in walk(target.body) if isinstance(n, (ast.Yield, ast.Return)) and n.value is not None]
+        only_full = len(ys_) == 1 and src(ys_[0].value) in ('self._intent.members()', 'self.intent')
+        calls_search = any(isinstance(n, ast.Call) and (chain(n.func) or [''])[-1] in ('_minimize', '_minimal', 'attributes', 'minimal') for n in walk(target.body))
+        if oname == 'attributes' and only_full and not calls_search:
+            R.bad('MINIMIZE', target, ys_[0], slot, 'every generating subset of the intent, from context._minimize(extent, intent)', 'only the full intent',
+                  extra={'consequence': 'for a concept with a non-empty extent (the bottom when some object has every property) the smaller generating '
+                                        'sets are missing'})
+        else:
+            R.unknown('MINIMIZE', target, target.node, slot, 'an override the rule table does not know')
     # Infimum really overrides Concept.minimal
     inf = model.cls('lattice_members.Infimum')
     R.check(any(b.name == 'Concept' for b in inf.bases), 'MINIMIZE', 'lattice_members.Infimum', inf.node, 'Infimum derives from Concept', 'class Infimum(Concept)')
+    # the generating sets are checked against lattice(properties) / lattice[...] (C02's lookup rules are a dependency)
+    from . import c02 as _c02
+    R.guard('MAPPING', None, 'Lattice lookups', _c02.lattice_rules, model, R)
     return __doc__.strip()
